@@ -1,15 +1,283 @@
 package main
 
 import (
+	"crypto/x509"
 	"fmt"
 	"io/ioutil"
+	"math"
 	"net"
 	"net/http"
+	"net/http/httptest"
+	"os"
 	"path/filepath"
+	"reflect"
 	"strings"
 	"testing"
 	"time"
+
+	"github.com/Cloud-Foundations/golib/pkg/log/testlogger"
+	"github.com/Cloud-Foundations/keymaster/lib/server/aws_identity_cert"
+	"gopkg.in/yaml.v2"
 )
+
+// ---------------------------------------------------------------- the configuration dimension
+//
+// "Cloud-role certificates never exceed 24 hours, automation certificates never exceed 45 days,
+// nothing else exceeds 24 hours" is unconditional: it holds whatever the operator configures.  The
+// knobs are found by reflection over the configuration structs of the CURRENT tree (AppConfigFile
+// and everything nested in it): every field of kind duration / integer / float, and strings whose
+// name suggests a lifetime.  Each knob is set to extreme values, the configuration is written as
+// YAML and loaded by the real loader, the daemon is unsealed, and every issuing path is driven.
+
+type c03Knob struct {
+	name  string // dotted Go field path below AppConfigFile
+	index []int
+	kind  string // duration | int | uint | float | string
+	typ   reflect.Type
+}
+
+var c03LifetimeWords = []string{"lifetime", "duration", "ttl", "expir", "validity", "valid_for", "max_age", "maxage", "timeout", "interval", "delay", "period", "hours", "days", "secs", "seconds", "minutes"}
+
+func c03Knobs() []c03Knob {
+	var out []c03Knob
+	durT := reflect.TypeOf(time.Duration(0))
+	var walk func(t reflect.Type, idx []int, name string, depth int)
+	walk = func(t reflect.Type, idx []int, name string, depth int) {
+		if depth > 6 {
+			return
+		}
+		for i := 0; i < t.NumField(); i++ {
+			f := t.Field(i)
+			if f.PkgPath != "" || f.Tag.Get("yaml") == "-" {
+				continue
+			}
+			fidx := append(append([]int{}, idx...), i)
+			fname := f.Name
+			if name != "" {
+				fname = name + "." + f.Name
+			}
+			k := c03Knob{name: fname, index: fidx, typ: f.Type}
+			switch {
+			case f.Type == durT:
+				k.kind = "duration"
+			case f.Type.Kind() >= reflect.Int && f.Type.Kind() <= reflect.Int64:
+				k.kind = "int"
+			case f.Type.Kind() >= reflect.Uint && f.Type.Kind() <= reflect.Uint64:
+				k.kind = "uint"
+			case f.Type.Kind() == reflect.Float32 || f.Type.Kind() == reflect.Float64:
+				k.kind = "float"
+			case f.Type.Kind() == reflect.String:
+				low := strings.ToLower(f.Name + " " + f.Tag.Get("yaml"))
+				for _, w := range c03LifetimeWords {
+					if strings.Contains(low, w) {
+						k.kind = "string"
+					}
+				}
+			case f.Type.Kind() == reflect.Struct:
+				walk(f.Type, fidx, fname, depth+1)
+			}
+			if k.kind != "" {
+				out = append(out, k)
+			}
+		}
+	}
+	walk(reflect.TypeOf(AppConfigFile{}), nil, "", 0)
+	return out
+}
+
+type c03KnobValue struct {
+	desc string
+	z    int64 // what goes into the Coq configuration (saturated)
+	set  func(v reflect.Value)
+}
+
+func (k c03Knob) values(thorough bool) []c03KnobValue {
+	var out []c03KnobValue
+	switch k.kind {
+	case "duration":
+		ds := []time.Duration{72 * time.Hour, 1000000 * time.Hour, -time.Hour, math.MaxInt64}
+		if thorough {
+			ds = append(ds, 0, 1, 25*time.Hour, 24*time.Hour+1, 46*24*time.Hour, 45*24*time.Hour+1, math.MinInt64, time.Minute)
+		}
+		for _, d := range ds {
+			d := d
+			out = append(out, c03KnobValue{d.String(), int64(d), func(v reflect.Value) { v.SetInt(int64(d)) }})
+		}
+	case "int":
+		bits := k.typ.Bits()
+		max := int64(1)<<uint(bits-1) - 1
+		vs := []int64{100000000, max, -1}
+		if thorough {
+			vs = append(vs, 0, 1, 25, 73, 2000, -max - 1)
+		}
+		for _, x := range vs {
+			x := x
+			if x > max {
+				x = max
+			}
+			out = append(out, c03KnobValue{fmt.Sprint(x), x, func(v reflect.Value) { v.SetInt(x) }})
+		}
+	case "uint":
+		bits := k.typ.Bits()
+		max := uint64(math.MaxUint64)
+		if bits < 64 {
+			max = uint64(1)<<uint(bits) - 1
+		}
+		vs := []uint64{100000000, max}
+		if thorough {
+			vs = append(vs, 0, 1, 25, 73, 2000)
+		}
+		for _, x := range vs {
+			x := x
+			if x > max {
+				x = max
+			}
+			z := int64(x)
+			if x > math.MaxInt64 {
+				z = math.MaxInt64
+			}
+			out = append(out, c03KnobValue{fmt.Sprint(x), z, func(v reflect.Value) { v.SetUint(x) }})
+		}
+	case "float":
+		vs := []float64{1e12, -1}
+		if thorough {
+			vs = append(vs, 0, 1e-9, 73, 1e300)
+		}
+		for _, x := range vs {
+			x := x
+			z := int64(math.MaxInt64)
+			if x < 1e18 {
+				z = int64(x)
+			}
+			out = append(out, c03KnobValue{fmt.Sprint(x), z, func(v reflect.Value) { v.SetFloat(x) }})
+		}
+	case "string":
+		vs := []string{"72h", "1000000h", "-1h"}
+		if thorough {
+			vs = append(vs, "0", "2000", "100000000", "junk")
+		}
+		for _, x := range vs {
+			x := x
+			var z int64
+			if d, err := time.ParseDuration(x); err == nil {
+				z = int64(d)
+			}
+			out = append(out, c03KnobValue{x, z, func(v reflect.Value) { v.SetString(x) }})
+		}
+	}
+	var uniq []c03KnobValue
+	seen := map[string]bool{}
+	for _, v := range out {
+		if !seen[v.desc] {
+			seen[v.desc] = true
+			uniq = append(uniq, v)
+		}
+	}
+	return uniq
+}
+
+// the canned STS answer behind http.DefaultClient: the cloud-role issuer the LOADER built (with
+// whatever parameters the loader passes it on the current tree) is driven, not one the harness makes
+type c03STSTransport struct{ next http.RoundTripper }
+
+func (tr c03STSTransport) RoundTrip(r *http.Request) (*http.Response, error) {
+	if strings.HasPrefix(r.URL.Host, "sts.") && strings.HasSuffix(r.URL.Host, ".amazonaws.com") {
+		return verifFakeSTS{}.RoundTrip(r)
+	}
+	if tr.next == nil {
+		return http.DefaultTransport.RoundTrip(r)
+	}
+	return tr.next.RoundTrip(r)
+}
+
+func c03InstallFakeSTS() {
+	if _, done := http.DefaultClient.Transport.(c03STSTransport); !done {
+		http.DefaultClient.Transport = c03STSTransport{next: http.DefaultClient.Transport}
+	}
+}
+
+// the lifetime of the template the cloud-role library hands to its certificate generator on the
+// current tree (library defaults: only the required parameter is set) - regenerated constant
+func c03ProbeAwsTemplate(t *testing.T) int64 {
+	var life int64 = -1
+	issuer, err := aws_identity_cert.New(aws_identity_cert.Params{
+		CertificateGenerator: func(template *x509.Certificate, publicKey interface{}) ([]byte, error) {
+			life = int64(template.NotAfter.Sub(template.NotBefore))
+			return nil, fmt.Errorf("probe only")
+		},
+		HttpClient: &http.Client{Transport: verifFakeSTS{}},
+	})
+	if err != nil {
+		t.Fatalf("aws_identity_cert.New: %v", err)
+	}
+	issuer.RequestHandler(httptest.NewRecorder(), verifAwsRequest(verifNewKeys().pemPub))
+	return life
+}
+
+// like verifSetup, but a configuration the loader refuses is an outcome, not a harness failure
+func c03TrySetup(t *testing.T, edit func(c *AppConfigFile, dir string)) (env *verifEnv, err error) {
+	defer func() {
+		if p := recover(); p != nil {
+			env, err = nil, fmt.Errorf("loader panicked: %v", p)
+		}
+	}()
+	material := verifMaterial(t)
+	dir, err := ioutil.TempDir("", "verif_km_cfg")
+	if err != nil {
+		return nil, err
+	}
+	t.Cleanup(func() { os.RemoveAll(dir) })
+	copyTree(t, material, dir)
+	configFilename := filepath.Join(dir, "config.yml")
+	raw, err := ioutil.ReadFile(configFilename)
+	if err != nil {
+		return nil, err
+	}
+	raw = []byte(strings.ReplaceAll(string(raw), material, dir))
+	var cfg AppConfigFile
+	if err := yaml.Unmarshal(raw, &cfg); err != nil {
+		return nil, err
+	}
+	cfg.Base.HostIdentity = "keymaster.example"
+	cfg.Base.HttpAddress = ":443"
+	cfg.Base.AdminAddress = ":6920"
+	f, err := os.OpenFile(cfg.Base.HtpasswdFilename, os.O_APPEND|os.O_WRONLY, 0644)
+	if err != nil {
+		return nil, err
+	}
+	f.WriteString("\n" + verifHtpasswdLines())
+	f.Close()
+	edit(&cfg, dir)
+	out, err := yaml.Marshal(&cfg)
+	if err != nil {
+		return nil, fmt.Errorf("yaml.Marshal: %v", err)
+	}
+	if err := ioutil.WriteFile(configFilename, out, 0640); err != nil {
+		return nil, err
+	}
+	state, err := loadVerifyConfigFile(configFilename, testlogger.New(t))
+	if err != nil {
+		return nil, fmt.Errorf("loader: %v", err)
+	}
+	t.Cleanup(func() {
+		if state.dbDone != nil {
+			close(state.dbDone)
+		}
+	})
+	env = &verifEnv{t: t, dir: dir, configFile: configFilename, passphrase: verifPassphrase, state: state}
+	env.adminClient = verifReadCert(t, filepath.Join(dir, "etc/keymaster/adminClient.pem"))
+	env.adminCA = verifReadCert(t, filepath.Join(dir, "etc/keymaster/adminCA.pem"))
+	if code := env.inject(env.passphrase, true); code != 200 {
+		return nil, fmt.Errorf("unseal answered %d", code)
+	}
+	select {
+	case <-state.SignerIsReady:
+	case <-time.After(5 * time.Second):
+		return nil, fmt.Errorf("SignerIsReady not signalled")
+	}
+	env.finishStartup()
+	return env, nil
+}
 
 func c03Durations(thorough bool) []string {
 	d := []string{
@@ -43,10 +311,13 @@ func c03Durations(thorough bool) []string {
 }
 
 type c03Obs struct {
+	cfg       int // index into the configuration table (0 = the base configuration)
+	path      int // 0 certgen ssh, 1 certgen x509 / kubernetes, 2 role, 3 refresh, 4 cloud-role
 	dur       string
 	hasDur    bool
 	parseErr  bool
 	requested int64
+	credKind  int // 0 cookie iat, 1 keymaster client certificate NotBefore, 2 IP certificate NotBefore, 3 password
 	iat       int64
 	t0, t1    int64
 	certType  string
@@ -57,25 +328,48 @@ type c03Obs struct {
 	vbU       uint64
 }
 
+type c03Config struct {
+	desc string
+	knob int   // -1: base
+	z    int64 // value as the model's configuration carries it
+}
+
+func c03BaseEdit(c *AppConfigFile, dir string) {
+	c.Base.AllowedAuthBackendsForWebUI = []string{"password"}
+	c.Base.AllowedAuthBackendsForCerts = []string{"U2F"}
+	c.Base.AutomationUsers = []string{"svc-automation"}
+	c.Base.AdminUsers = []string{"admin"}
+	c.AwsCerts.AllowedAccounts = []string{"123456789012"}
+}
+
 func TestVerif_C03(t *testing.T) {
 	verifWriteConsts(t)
-	res := newVerifResult("duration table (boundary/adversarial strings, plus 3000 random int64 durations in thorough) x session ages {fresh, 8h, 15h59m, 23h59m, 25h, 40d} (cookie iat, cookie upgraded by a late second factor, or client-certificate NotBefore) x {ssh, x509, x509-kubernetes}; role-requesting and refresh endpoints; non-trivial = a certificate was issued; distinct by (duration, age, type, validity length)")
-	env := verifSetup(t, func(c *AppConfigFile, dir string) {
-		c.Base.AllowedAuthBackendsForWebUI = []string{"password"}
-		c.Base.AllowedAuthBackendsForCerts = []string{"U2F"}
-		c.Base.AutomationUsers = []string{"svc-automation"}
-		c.Base.AdminUsers = []string{"admin"}
-		c.AwsCerts.AllowedAccounts = []string{"123456789012"}
-	})
-	env.enableFakeAws()
+	// regenerated constant: lifetime of the cloud-role template of the current tree
+	awsLife := c03ProbeAwsTemplate(t)
+	if f, err := os.OpenFile(filepath.Join(verifOut(), "gen", "Consts.v"), os.O_APPEND|os.O_WRONLY, 0644); err == nil {
+		fmt.Fprintf(f, "Definition awsRoleCertLifetime_ns : Z := (%d)%%Z.\n", awsLife)
+		f.Close()
+	} else {
+		t.Fatal(err)
+	}
+	res := newVerifResult("duration table (boundary/adversarial strings, plus 3000 random int64 durations in thorough) x session ages {fresh, 8h, 15h59m, 23h59m, 25h, 40d} (cookie iat, cookie upgraded by a late second factor, or client-certificate NotBefore) x {ssh, x509, x509-kubernetes}; role-requesting and refresh endpoints; cloud-role endpoint through the issuer the loader built; the same paths under every configuration obtained by setting one reflected numeric/duration knob of AppConfigFile to an extreme value and loading it with the real loader; non-trivial = a certificate was issued; distinct by (configuration, duration, age, type, validity length)")
+	c03InstallFakeSTS()
+	env := verifSetup(t, c03BaseEdit)
 	env.handler = env.buildHandler()
 	keys := verifNewKeys()
 	ages := []time.Duration{0, 8 * time.Hour, 15*time.Hour + 59*time.Minute, 23*time.Hour + 59*time.Minute, 25 * time.Hour, 40 * 24 * time.Hour}
 	types := []string{"ssh", "x509", "x509-kubernetes"}
 	var all []c03Obs
+	configs := []c03Config{{desc: "base", knob: -1}}
 	rng03 := verifRand()
 	durs := c03Durations(verifThorough())
 	maxLife := int64(24 * time.Hour)
+	cfgNote := func(o *c03Obs) string {
+		if o.cfg == 0 {
+			return ""
+		}
+		return " under configuration " + configs[o.cfg].desc
+	}
 	oracle := func(o *c03Obs) {
 		if !o.issued {
 			return
@@ -103,13 +397,16 @@ func TestVerif_C03(t *testing.T) {
 		}
 		if key != "" {
 			res.hit(verifHit{Key: "C03:" + key + ":" + o.certType, Oracle: "certificate validity exceeds min(requested, 24h, authenticated+24h) or wraps",
-				What:     fmt.Sprintf("duration=%q age=%ds type=%s cred=%s: %s (ValidAfter=%d ValidBefore=%d now=%d)", o.dur, o.t0-o.iat, o.certType, o.cred, what, o.va, o.vbU, o.t1),
-				Case:     map[string]interface{}{"duration": o.dur, "age_s": o.t0 - o.iat, "type": o.certType, "cred": o.cred},
+				What:     fmt.Sprintf("duration=%q age=%ds type=%s cred=%s%s: %s (ValidAfter=%d ValidBefore=%d now=%d)", o.dur, o.t0-o.iat, o.certType, o.cred, cfgNote(o), what, o.va, o.vbU, o.t1),
+				Case:     map[string]interface{}{"duration": o.dur, "age_s": o.t0 - o.iat, "type": o.certType, "cred": o.cred, "config": configs[o.cfg].desc},
 				Observed: map[string]interface{}{"not_before": o.va, "not_after": o.vbU, "status": o.status}})
 		}
 	}
-	run := func(dur string, hasDur bool, age time.Duration, certType, cred string) {
-		o := c03Obs{dur: dur, hasDur: hasDur, certType: certType, cred: cred}
+	run := func(env *verifEnv, cfg int, dur string, hasDur bool, age time.Duration, certType, cred string) {
+		o := c03Obs{cfg: cfg, dur: dur, hasDur: hasDur, certType: certType, cred: cred}
+		if certType != "ssh" {
+			o.path = 1
+		}
 		if hasDur {
 			pd, err := time.ParseDuration(dur)
 			o.parseErr = err != nil
@@ -144,7 +441,15 @@ func TestVerif_C03(t *testing.T) {
 			}
 			req.AddCookie(authCookie(up))
 		case "tlscert":
+			o.credKind = 1
 			withTLS(req, env.keymasterChain("alice", time.Unix(o.iat, 0), &keys.ec.PublicKey), "")
+			env.state.Config.Base.AllowedAuthBackendsForCerts = []string{"password"}
+			defer func() { env.state.Config.Base.AllowedAuthBackendsForCerts = []string{"U2F"} }()
+		case "basic":
+			// the password on the request itself: authenticated now
+			o.credKind = 3
+			o.iat = now.Unix()
+			req.SetBasicAuth("alice", "alicepw")
 			env.state.Config.Base.AllowedAuthBackendsForCerts = []string{"password"}
 			defer func() { env.state.Config.Base.AllowedAuthBackendsForCerts = []string{"U2F"} }()
 		}
@@ -159,7 +464,7 @@ func TestVerif_C03(t *testing.T) {
 			}
 		}
 		oracle(&o)
-		res.eval(fmt.Sprintf("%s|%v|%d|%s|%s|%d", dur, hasDur, int64(age), certType, cred, o.vb-o.va), o.issued)
+		res.eval(fmt.Sprintf("%d|%s|%v|%d|%s|%s|%d", cfg, dur, hasDur, int64(age), certType, cred, o.vb-o.va), o.issued)
 		if o.issued {
 			res.bump("issued")
 		} else {
@@ -168,6 +473,86 @@ func TestVerif_C03(t *testing.T) {
 		res.bump("type:" + certType)
 		all = append(all, o)
 	}
+	// role-requesting certificate and its refresh: fixed maximum, whatever duration is sent along
+	runRole := func(env *verifEnv, cfg int, path, d string) {
+		var req *http.Request
+		o := c03Obs{cfg: cfg, dur: d, hasDur: d != "", certType: path}
+		if d != "" {
+			pd, err := time.ParseDuration(d)
+			o.parseErr = err != nil
+			o.requested = int64(pd)
+		}
+		if path == "role" {
+			o.path = 2
+			f := roleCertForm("svc-automation", []string{"10.0.0.0/8"}, keys.derPubRU)
+			if d != "" {
+				f.Set("duration", d)
+			}
+			req = verifNewRequest("POST", getRoleRequestingPath, f)
+			req.AddCookie(env.cookie("admin", AuthTypePassword))
+			o.iat = time.Now().Unix()
+		} else {
+			o.path, o.credKind = 3, 2
+			f := roleCertForm("", nil, keys.derPubRU)
+			if d != "" {
+				f.Set("duration", d)
+			}
+			req = verifNewRequest("POST", refreshRoleRequestingCertPath, f)
+			chain := env.ipRestrictedChain("svc-automation", []net.IPNet{mustCIDR("10.0.0.0/8")}, &keys.ec.PublicKey)
+			o.iat = chain[0][0].NotBefore.Unix()
+			withTLS(req, chain, "10.9.9.9:1234")
+		}
+		o.t0 = time.Now().Unix()
+		rr, _ := env.serve(req)
+		c := verifParseCertBody(rr.Body.Bytes())
+		o.t1, o.status, o.issued = time.Now().Unix(), rr.Code, rr.Code == 200 && c != nil
+		if o.issued {
+			o.va, o.vb, o.vbU = c.notBefore, c.notAfter, c.notAfterU
+		} else if d == "" {
+			t.Errorf("%s cert request failed%s: %d %s", path, cfgNote(&o), rr.Code, rr.Body.String())
+			res.hit(verifHit{Key: "C03:harness:" + path, Oracle: "harness", What: "plain " + path + " request was refused" + cfgNote(&o), Case: path})
+		}
+		all = append(all, o)
+		res.eval(fmt.Sprintf("role|%d|%s|%s|%d", cfg, path, d, o.vb-o.va), o.issued)
+		res.bump("type:" + path)
+		if o.issued && (o.vb-o.va > 45*86400 || o.va > o.t1+1 || o.vbU > uint64(1)<<62) {
+			res.hit(verifHit{Key: "C03:role-toolong:" + o.certType, Oracle: "automation certificate valid longer than 45 days / starts in the future",
+				What: fmt.Sprintf("%s certificate with duration=%q%s valid for %d s", o.certType, d, cfgNote(&o), o.vb-o.va), Case: map[string]interface{}{"path": path, "duration": d, "config": configs[cfg].desc}})
+		}
+	}
+	// cloud-role certificates: 24 hours
+	runAws := func(env *verifEnv, cfg int, variant int) {
+		req := verifAwsRequest(keys.pemPub)
+		o := c03Obs{cfg: cfg, path: 4, credKind: 3, certType: "aws"}
+		if variant == 1 {
+			req.URL.RawQuery = "duration=1000h"
+			o.dur = "1000h (query)"
+		}
+		if variant == 2 {
+			req.Header.Set("Duration", "1000h")
+			o.dur = "1000h (header)"
+		}
+		o.t0 = time.Now().Unix()
+		o.iat = o.t0
+		rr, _ := env.serve(req)
+		c := verifParseCertBody(rr.Body.Bytes())
+		o.t1, o.status, o.issued = time.Now().Unix(), rr.Code, rr.Code == 200 && c != nil
+		if o.issued {
+			o.va, o.vb, o.vbU = c.notBefore, c.notAfter, c.notAfterU
+			if o.vb-o.va > 86400 || o.va > o.t1+1 || o.vbU > uint64(1)<<62 {
+				res.hit(verifHit{Key: "C03:aws-toolong", Oracle: "cloud-role certificate valid longer than 24 hours",
+					What: fmt.Sprintf("cloud-role certificate%s valid for %d s", cfgNote(&o), o.vb-o.va), Case: map[string]interface{}{"path": "aws", "config": configs[cfg].desc}})
+			}
+		} else {
+			t.Errorf("aws request failed%s: %d %s", cfgNote(&o), rr.Code, rr.Body.String())
+			res.hit(verifHit{Key: "C03:harness:aws", Oracle: "harness", What: "cloud-role request was refused" + cfgNote(&o), Case: "aws"})
+		}
+		all = append(all, o)
+		res.eval(fmt.Sprintf("aws|%d|%d|%d", cfg, variant, o.vb-o.va), o.issued)
+		res.bump("type:aws")
+	}
+
+	// ---- the base configuration: the whole duration x age x type table
 	for _, d := range durs {
 		for ai, age := range ages {
 			for ti, ct := range types {
@@ -175,7 +560,7 @@ func TestVerif_C03(t *testing.T) {
 					// quick: half of the (age,type) grid for the long tail of strings
 					continue
 				}
-				run(d, d != "", age, ct, "cookie")
+				run(env, 0, d, d != "", age, ct, "cookie")
 			}
 		}
 	}
@@ -183,94 +568,101 @@ func TestVerif_C03(t *testing.T) {
 	for _, d := range []string{"", "24h", "1h", "16h", "100h"} {
 		for _, age := range ages {
 			for _, ct := range types {
-				run(d, d != "", age, ct, "upgraded")
+				run(env, 0, d, d != "", age, ct, "upgraded")
 			}
 		}
 	}
 	for _, d := range []string{"", "1h", "24h", "-1h", "-9223372036s", "23h59m59s"} {
 		for _, age := range []time.Duration{0, 23*time.Hour + 59*time.Minute, 30 * time.Hour} {
-			run(d, d != "", age, "ssh", "tlscert")
-			run(d, d != "", age, "x509", "tlscert")
+			run(env, 0, d, d != "", age, "ssh", "tlscert")
+			run(env, 0, d, d != "", age, "x509", "tlscert")
 		}
 	}
-	// role-requesting certificate and its refresh: fixed maximum, whatever duration is sent along
-	var roleObs []c03Obs
+	for _, d := range []string{"", "1h", "24h", "24h1s", "-1h"} {
+		run(env, 0, d, d != "", 0, "ssh", "basic")
+		run(env, 0, d, d != "", 0, "x509", "basic")
+	}
 	{
 		roleDurs := []string{"", "1h", "24h", "1080h", "1080h0m1s", "1081h", "1100h", "1103h59m59s", "1104h", "2000h", "-1h", "-9223372036s", "2562047h", "0", "45d", "46d", "3888000s", "3888001s", "3974399s"}
 		if verifThorough() {
 			roleDurs = append(roleDurs, durs...)
 		}
 		for _, d := range roleDurs {
-			for _, path := range []string{"role", "refresh"} {
-				var req *http.Request
-				if path == "role" {
-					f := roleCertForm("svc-automation", []string{"10.0.0.0/8"}, keys.derPubRU)
-					if d != "" {
-						f.Set("duration", d)
-					}
-					req = verifNewRequest("POST", getRoleRequestingPath, f)
-					req.AddCookie(env.cookie("admin", AuthTypePassword))
-				} else {
-					f := roleCertForm("", nil, keys.derPubRU)
-					if d != "" {
-						f.Set("duration", d)
-					}
-					req = verifNewRequest("POST", refreshRoleRequestingCertPath, f)
-					withTLS(req, env.ipRestrictedChain("svc-automation", []net.IPNet{mustCIDR("10.0.0.0/8")}, &keys.ec.PublicKey), "10.9.9.9:1234")
-				}
-				t0 := time.Now().Unix()
-				rr, _ := env.serve(req)
-				c := verifParseCertBody(rr.Body.Bytes())
-				o := c03Obs{dur: d, certType: path, t0: t0, t1: time.Now().Unix(), status: rr.Code, issued: rr.Code == 200 && c != nil}
-				if o.issued {
-					o.va, o.vb, o.vbU = c.notBefore, c.notAfter, c.notAfterU
-				} else if d == "" {
-					t.Errorf("%s cert request failed: %d %s", path, rr.Code, rr.Body.String())
-					res.hit(verifHit{Key: "C03:harness:" + path, Oracle: "harness", What: "plain " + path + " request was refused", Case: path})
-				}
-				roleObs = append(roleObs, o)
-				res.eval("role|"+path+"|"+d+fmt.Sprint(o.vb-o.va), o.issued)
-				res.bump("type:" + path)
-				if o.issued && (o.vb-o.va > 45*86400 || o.va > o.t1+1 || o.vbU > uint64(1)<<62) {
-					res.hit(verifHit{Key: "C03:role-toolong:" + o.certType, Oracle: "automation certificate valid longer than 45 days / starts in the future",
-						What: fmt.Sprintf("%s certificate with duration=%q valid for %d s", o.certType, d, o.vb-o.va), Case: map[string]interface{}{"path": path, "duration": d}})
-				}
-			}
+			runRole(env, 0, "role", d)
+			runRole(env, 0, "refresh", d)
 		}
 	}
-	// cloud-role certificates: 24 hours
-	var awsObs []c03Obs
 	for i := 0; i < 3; i++ {
-		req := verifAwsRequest(keys.pemPub)
-		if i == 1 {
-			req.URL.RawQuery = "duration=1000h"
-		}
-		if i == 2 {
-			req.Header.Set("Duration", "1000h")
-		}
-		t0 := time.Now().Unix()
-		rr, _ := env.serve(req)
-		c := verifParseCertBody(rr.Body.Bytes())
-		o := c03Obs{certType: "aws", t0: t0, t1: time.Now().Unix(), status: rr.Code, issued: rr.Code == 200 && c != nil}
-		if o.issued {
-			o.va, o.vb, o.vbU = c.notBefore, c.notAfter, c.notAfterU
-			if o.vb-o.va > 86400 || o.va > o.t1+1 || o.vbU > uint64(1)<<62 {
-				res.hit(verifHit{Key: "C03:aws-toolong", Oracle: "cloud-role certificate valid longer than 24 hours", What: fmt.Sprintf("cloud-role certificate valid for %d s", o.vb-o.va), Case: "aws"})
-			}
-		} else {
-			t.Errorf("aws request failed: %d %s", rr.Code, rr.Body.String())
-			res.hit(verifHit{Key: "C03:harness:aws", Oracle: "harness", What: "cloud-role request was refused", Case: "aws"})
-		}
-		awsObs = append(awsObs, o)
-		res.eval(fmt.Sprintf("aws|%d|%d", i, o.vb-o.va), o.issued)
-		res.bump("type:aws")
+		runAws(env, 0, i)
 	}
+
+	// ---- every other configuration: one reflected knob at an extreme value
+	knobs := c03Knobs()
+	driveAll := func(e *verifEnv, cfg int) {
+		for _, ct := range types {
+			run(e, cfg, "", false, 0, ct, "cookie")
+			run(e, cfg, "24h", true, 0, ct, "cookie")
+			run(e, cfg, "100h", true, 0, ct, "cookie")
+		}
+		run(e, cfg, "", false, 23*time.Hour+59*time.Minute, "ssh", "cookie")
+		run(e, cfg, "", false, 8*time.Hour, "x509", "tlscert")
+		for _, d := range []string{"", "2000h"} {
+			runRole(e, cfg, "role", d)
+			runRole(e, cfg, "refresh", d)
+		}
+		runAws(e, cfg, 0)
+	}
+	refused := 0
+	for ki, k := range knobs {
+		for _, v := range k.values(verifThorough()) {
+			k, v := k, v
+			desc := fmt.Sprintf("%s=%s", k.name, v.desc)
+			e, err := c03TrySetup(t, func(c *AppConfigFile, dir string) {
+				c03BaseEdit(c, dir)
+				v.set(reflect.ValueOf(c).Elem().FieldByIndex(k.index))
+			})
+			res.bump("config:" + k.kind)
+			if err != nil {
+				// a configuration the daemon does not start with issues nothing
+				refused++
+				res.bump("config-refused")
+				res.eval("cfg-refused|"+desc, false)
+				continue
+			}
+			configs = append(configs, c03Config{desc: desc, knob: ki, z: v.z})
+			driveAll(e, len(configs)-1)
+		}
+	}
+	res.Extra["config_knobs"] = len(knobs)
+	res.Extra["configurations_loaded"] = len(configs) - 1
+	res.Extra["configurations_refused_by_loader"] = refused
+	var knobNames []string
+	for _, k := range knobs {
+		knobNames = append(knobNames, k.name+":"+k.kind)
+	}
+	res.Extra["knobs"] = knobNames
+
 	// Coq cases
 	var sb strings.Builder
 	sb.WriteString(coqCaseHeader)
 	sb.WriteString("From KM Require Import Base.Cases Model.Lifetime.\nFrom KMW Require Import gen.Consts.\nOpen Scope Z_scope.\n")
-	sb.WriteString("(* (has duration field, parse error, requested ns, iat s, t0 s, t1 s, issued, not_before s, not_after s) *)\n")
-	sb.WriteString("Definition c03_bad (c : bool * bool * Z * Z * Z * Z * bool * Z * Z) : bool :=\n  let '(has, perr, r, iat, t0, t1, issued, va, vb) := c in\n  if perr then issued else negb (ssh_obs_ok maxCertificateLifetime_ns (if has then Some r else None) iat t0 t1 issued va vb).\n")
+	sb.WriteString("Definition limits_now : limits := {| maxc := maxCertificateLifetime_ns; maxrole := maxRoleRequestingCertDuration_ns; awslife := awsRoleCertLifetime_ns |}.\n")
+	sb.WriteString("(* configuration table: (knob number in reflection order, value the harness wrote) *)\nDefinition configs : list config := [\n")
+	for i, c := range configs {
+		sep := ";"
+		if i == len(configs)-1 {
+			sep = ""
+		}
+		if c.knob < 0 {
+			sb.WriteString(" []" + sep + "\n")
+		} else {
+			sb.WriteString(fmt.Sprintf(" [(%d%%N, %s)]%s\n", c.knob, coqZ(c.z), sep))
+		}
+	}
+	sb.WriteString("].\n")
+	sb.WriteString("(* (configuration, path, has duration field, parse error, requested ns, credential kind, authenticated-at s, t0 s, t1 s, issued, not_before s, not_after s) *)\n")
+	sb.WriteString("Definition c03_case := (nat * Z * bool * bool * Z * Z * Z * Z * Z * bool * Z * Z)%type.\n")
+	sb.WriteString("Definition c03_bad (c : c03_case) : bool :=\n  let '(cf, p, has, perr, r, ck, iat, t0, t1, issued, va, vb) := c in\n  if perr && (p <? 2) then issued else negb (window_obs_ok (nth cf configs []) limits_now (path_of p) (if has && negb perr then Some r else None) (cred_of ck iat) t0 t1 issued va vb).\n")
 	// sharded: one list literal of tens of thousands of tuples overflows coqc's stack (thorough tier)
 	const c03Shard = 2000
 	var shardNames []string
@@ -281,48 +673,43 @@ func TestVerif_C03(t *testing.T) {
 		}
 		name := fmt.Sprintf("cases%d", i/c03Shard)
 		shardNames = append(shardNames, name)
-		sb.WriteString("Definition " + name + " : list (bool * bool * Z * Z * Z * Z * bool * Z * Z) := [\n")
+		sb.WriteString("Definition " + name + " : list c03_case := [\n")
 		for j := i; j < end; j++ {
 			o := all[j]
 			sep := ";"
 			if j == end-1 {
 				sep = ""
 			}
-			sb.WriteString(fmt.Sprintf(" (%s,%s,%s,%s,%s,%s,%s,%s,%s)%s\n", coqBool(o.hasDur), coqBool(o.parseErr), coqZ(o.requested), coqZ(o.iat), coqZ(o.t0), coqZ(o.t1), coqBool(o.issued), coqZ(o.va), coqZ(o.vb), sep))
+			sb.WriteString(fmt.Sprintf(" (%d%%nat,%s,%s,%s,%s,%s,%s,%s,%s,%s,%s,%s)%s\n", o.cfg, coqZ(int64(o.path)), coqBool(o.hasDur), coqBool(o.parseErr), coqZ(o.requested), coqZ(int64(o.credKind)), coqZ(o.iat), coqZ(o.t0), coqZ(o.t1), coqBool(o.issued), coqZ(o.va), coqZ(o.vb), sep))
 		}
 		sb.WriteString("].\n")
 	}
 	allCases := "(" + strings.Join(shardNames, " ++ ") + ")"
-	sb.WriteString("Definition c03_mismatches := Eval vm_compute in mismatches c03_bad " + allCases + ".\nPrint c03_mismatches.\n")
-	sb.WriteString("Definition c03_ncases := Eval vm_compute in length " + allCases + ".\nPrint c03_ncases.\n")
-	sb.WriteString("(* role-requesting / refresh: observed validity length is positive and at most the regenerated maximum *)\n")
-	sb.WriteString("Definition role_cases : list (bool * Z) := [")
-	for i, o := range roleObs {
-		if i > 0 {
-			sb.WriteString("; ")
-		}
-		sb.WriteString(fmt.Sprintf("(%s, %s)", coqBool(o.issued), coqZ(o.vb-o.va)))
+	sb.WriteString("Definition c03_all_mismatches := Eval vm_compute in mismatches c03_bad " + allCases + ".\n")
+	sb.WriteString("Definition c03_path_of_case (i : nat) : Z := let '(_, p, _, _, _, _, _, _, _, _, _, _) := nth i " + allCases + " (0%nat, 0, false, false, 0, 0, 0, 0, 0, false, 0, 0) in p.\n")
+	sb.WriteString("Definition c03_cfg_of_case (i : nat) : nat := let '(cf, _, _, _, _, _, _, _, _, _, _, _) := nth i " + allCases + " (0%nat, 0, false, false, 0, 0, 0, 0, 0, false, 0, 0) in cf.\n")
+	sb.WriteString("Definition c03_mismatches := Eval vm_compute in filter (fun i => (c03_path_of_case i <? 2) && Nat.eqb (c03_cfg_of_case i) 0) c03_all_mismatches.\nPrint c03_mismatches.\n")
+	sb.WriteString("Definition c03_role_mismatches := Eval vm_compute in filter (fun i => (2 <=? c03_path_of_case i) && (c03_path_of_case i <? 4) && Nat.eqb (c03_cfg_of_case i) 0) c03_all_mismatches.\nPrint c03_role_mismatches.\n")
+	sb.WriteString("Definition c03_aws_mismatches := Eval vm_compute in filter (fun i => (4 <=? c03_path_of_case i) && Nat.eqb (c03_cfg_of_case i) 0) c03_all_mismatches.\nPrint c03_aws_mismatches.\n")
+	sb.WriteString("Definition c03_config_mismatches := Eval vm_compute in filter (fun i => negb (Nat.eqb (c03_cfg_of_case i) 0)) c03_all_mismatches.\nPrint c03_config_mismatches.\n")
+	// (a unary numeral of the total overflows coqc's stack in the thorough tier: sum the shard lengths in N)
+	var lens []string
+	for _, n := range shardNames {
+		lens = append(lens, "N.of_nat (length "+n+")")
 	}
-	sb.WriteString("].\nDefinition c03_role_mismatches := Eval vm_compute in mismatches (fun c : bool * Z => fst c && negb ((0 <? snd c) && (snd c * NS <=? maxRoleRequestingCertDuration_ns))) role_cases.\nPrint c03_role_mismatches.\n")
-	sb.WriteString("Definition aws_cases : list (bool * Z) := [")
-	for i, o := range awsObs {
-		if i > 0 {
-			sb.WriteString("; ")
-		}
-		sb.WriteString(fmt.Sprintf("(%s, %s)", coqBool(o.issued), coqZ(o.vb-o.va)))
-	}
-	sb.WriteString("].\nDefinition c03_aws_mismatches := Eval vm_compute in mismatches (fun c : bool * Z => negb (fst c && (0 <? snd c) && (snd c <=? 24 * 3600))) aws_cases.\nPrint c03_aws_mismatches.\n")
+	sb.WriteString("Definition c03_ncases := Eval vm_compute in (" + strings.Join(lens, " + ") + ")%N.\nPrint c03_ncases.\n")
+	sb.WriteString("Definition c03_nconfigs := Eval vm_compute in length configs.\nPrint c03_nconfigs.\n")
 	if err := ioutil.WriteFile(filepath.Join(verifOut(), "CasesC03.v"), []byte(sb.String()), 0644); err != nil {
 		t.Fatal(err)
 	}
 	var idx strings.Builder
 	for i, o := range all {
-		idx.WriteString(fmt.Sprintf("%d\tdur=%q has=%v perr=%v req=%d iat=%d t0=%d t1=%d type=%s cred=%s status=%d issued=%v va=%d vb=%d\n", i, o.dur, o.hasDur, o.parseErr, o.requested, o.iat, o.t0, o.t1, o.certType, o.cred, o.status, o.issued, o.va, o.vbU))
+		idx.WriteString(fmt.Sprintf("%d\tconfig=%q path=%d dur=%q has=%v perr=%v req=%d credkind=%d iat=%d t0=%d t1=%d type=%s cred=%s status=%d issued=%v va=%d vb=%d\n", i, configs[o.cfg].desc, o.path, o.dur, o.hasDur, o.parseErr, o.requested, o.credKind, o.iat, o.t0, o.t1, o.certType, o.cred, o.status, o.issued, o.va, o.vbU))
 	}
 	ioutil.WriteFile(filepath.Join(verifOut(), "CasesC03.idx"), []byte(idx.String()), 0644)
 	for _, i := range []int{0, 7, len(all) / 2, len(all) - 1} {
 		o := all[i]
-		res.sample(map[string]interface{}{"duration": o.dur, "age_s": o.t0 - o.iat, "type": o.certType, "cred": o.cred, "status": o.status, "validity_s": o.vb - o.va})
+		res.sample(map[string]interface{}{"config": configs[o.cfg].desc, "duration": o.dur, "age_s": o.t0 - o.iat, "type": o.certType, "cred": o.cred, "status": o.status, "validity_s": o.vb - o.va})
 	}
 	res.write(t, "TestVerif_C03")
 }
